@@ -36,7 +36,8 @@ static void log_key(Ev &ev, const IsapOps &io, void *m, const bytes_t &raw_befor
 }
 static void ik_init(const Args &a) {
     std::string sc = a.str("scheme"); const IsapOps &io = ops_of(sc); int id = (int)a.num("obj");
-    Obj &o = obj_new(id, "isapkey." + sc, io.size);
+    // re=1: a new key is installed in the SAME object (same address), as an application re-keying does
+    Obj &o = (a.num("re") && obj_exists(id)) ? obj_get(id, ("isapkey." + sc).c_str()) : obj_new(id, "isapkey." + sc, io.size);
     if (a.has("junk")) memset(o.mem, (int)a.num("junk"), o.size);
     bytes_t k = a.hex("k"); if (k.size() != io.klen) fatal("isap key size");
     InBuf kb(k);
@@ -45,7 +46,7 @@ static void ik_init(const Args &a) {
 }
 static void ik_load(const Args &a) {
     std::string sc = a.str("scheme"); const IsapOps &io = ops_of(sc); int id = (int)a.num("obj");
-    Obj &o = obj_new(id, "isapkey." + sc, io.size);
+    Obj &o = (a.num("re") && obj_exists(id)) ? obj_get(id, ("isapkey." + sc).c_str()) : obj_new(id, "isapkey." + sc, io.size);
     if (a.has("junk")) memset(o.mem, (int)a.num("junk"), o.size);
     bytes_t sv = a.hex("saved"); if (sv.size() != 80) fatal("saved key size");
     InBuf sb(sv);
